@@ -23,7 +23,7 @@ class Cfg:
         self.simple = 1 if kind == 0 else 0
         self.nothrow = 1 if kind in (0, 1) else 0
 
-    def line(self, bump=0):
+    def line(self, bump=1):
         return "m cfg %d %d %d %d %d %d %d" % (self.S, self.M, self.simple, self.nothrow, self.hpl, self.hashmode, bump)
 
     def key(self):
